@@ -83,9 +83,9 @@ def burg_inputs(h, m, cplx):
         from symx.array import SymArray
         A = SymArray.make(stepup(ks), cplx=True)
         K = SymArray.make(ks, cplx=True)
-        x = SymArray.make([1.0] * (2 * m + 2))
+        x = SymArray.make([1.0] * (2 * m))        # the shortest admissible record (m <= N/2)
         return x, ks, P, (A, P, K)
-    x = h.vec('x', 2 * m + 2, cplx)
+    x = h.vec('x', 2 * m, cplx)
     A, P, K = S.arburg(x, m - 1)
     return x, [K[i] for i in range(m - 1)], P, None
 
@@ -97,12 +97,21 @@ def case_minvar_stubbed(h, m, n, cplx, expect_fail=False):
     import sys as _sys
     MV = _sys.modules["spectrum.minvar"]
     orig = MV.arburg
+    seen = {}
     if stub is not None:
-        MV.arburg = lambda X, order, criteria=None: stub
+        def fake_arburg(X, order, criteria=None):
+            seen['order'] = order
+            seen['len'] = len(X)
+            return stub
+        MV.arburg = fake_arburg
     try:
         psd, A_ret, k_ret = S.minvar(x, m, sampling=fs, NFFT=n)
     finally:
         MV.arburg = orig
+    if stub is not None and (seen.get('order') != m - 1 or seen.get('len') != len(x)):
+        h.fail("Burg call", "minvar(x, m=%d) on %d samples asked arburg for order %r on %r samples (expected order %d on all samples)" % (
+            m, len(x), seen.get('order'), seen.get('len'), m - 1))
+        return
     a = [1] + stepup(ks)
     if len(A_ret) != m or len(k_ret) != m - 1 or len(psd) != n:
         h.fail("len", "len(A)=%d len(k)=%d len(psd)=%d" % (len(A_ret), len(k_ret), len(psd)))
@@ -168,9 +177,13 @@ def case_minvar_real(h, N, m, n, cplx):
     x = h.vec('x', N, cplx)
     fs = h.real('fs', positive=True)
     try:
-        psd, A_ret, k_ret = S.minvar(x, m, sampling=fs, NFFT=n)
         A, P, K = S.arburg(x, m - 1)
     except ValueError:
+        return          # degenerate data rejected by Burg itself
+    try:
+        psd, A_ret, k_ret = S.minvar(x, m, sampling=fs, NFFT=n)
+    except (ValueError, AssertionError) as e:
+        h.fail("minvar raised", "minvar(x, %d) raised %s although arburg(x, %d) succeeds on the same data" % (m, type(e).__name__, m - 1))
         return
     if len(A_ret) != m or len(k_ret) != m - 1 or len(psd) != n:
         h.fail("len", "lens %d %d %d" % (len(A_ret), len(k_ret), len(psd)))
